@@ -226,7 +226,7 @@ def monitor_success(kind, stream, outs, y, n, model, out):
         moved = [i for i, ok in enumerate(fixed) if not ok]
         if moved:
             key = "and_/success-not-fixed/other"
-            if model is not None and model[0] == "ok" and "success" in model[2]:
+            if model is not None and model[0] == "ok" and "success" in model[2] and same_vec(floats_of(model[1]["y"]), y):
                 t = int(model[1]["t"]); links = int(model[1]["links"])
                 if len(moved) == 1 and n > 0 and moved[0] == (t + 1) % n and links >= n - 1:
                     key = "and_/success-not-fixed/unverified-member-not-idempotent"
@@ -651,6 +651,18 @@ def pen_check(cs, rep, findings, hist):
         if not ok:
             findings.append(Finding("correspondence", "pen/value-diverges/%s" % cs["root"]["kind"],
                                     "combined penalty at x=%r: model %r impl %r" % (x, mv, v), case))
+    # a penalty combinator object is a function of the point: evaluated again (after all the other evaluations, in
+    # reverse order) it returns what it returned the first time
+    for v, x in reversed(list(zip(cs["vals"], cs["pts"]))):
+        for rep_ in range(2):
+            w = pcall(cs["root"]["obj"], x)
+            same = (w == v) if not (isinstance(w, float) and isinstance(v, float)) else same_float(w, v)
+            hist["pen-mon:re-evaluated"] = hist.get("pen-mon:re-evaluated", 0) + 1
+            if not same:
+                findings.append(Finding("monitor", "coupler/pen-%s-reused-differs" % cs["root"]["kind"],
+                                        "one penalty %s_ object evaluated again at x=%r gives %r, the first evaluation gave %r"
+                                        % (cs["root"]["kind"], x, w, v), case))
+                break
     # monitor: the clauses on the real objects, at every combinator node of the tree
     for node in all_nodes(cs["root"]):
         if node["kind"] == "leaf":
@@ -725,37 +737,81 @@ def cpl_case(rng, hist):
     kw = rng.random() < 0.5          # decorator-time bundle given as kwds instead of args
     A = dict(kwds={"a": a}) if kw else dict(args=(a,))
     Ab = dict(kwds={"b": a}) if kw else dict(args=(a,))
-    xs = list(x)
-    calls_ = {
-        "inner": lambda: coupler.inner(cA, **A)(fB)(xs, b),
-        "outer": lambda: coupler.outer(cA, **A)(gB)(xs, b),
-        "innerp": lambda: coupler.inner_proxy(cA, **Ab)(fB)(xs, b),
-        "outerp": lambda: coupler.outer_proxy(cA, **Ab)(gB)(xs, b),
-        "add": lambda: coupler.additive(pA, **A)(fB)(xs, b),
-        "addp": lambda: coupler.additive_proxy(pA, **Ab)(fB)(xs, b),
-        "wi": lambda: C.with_constraint(coupler.inner, **A)(cA)(xs),
-        "wo": lambda: C.with_constraint(coupler.outer, **A)(cA)(xs),
-        "wip": lambda: C.with_constraint(coupler.inner_proxy)(cA)(xs, b),
-        "wop": lambda: C.with_constraint(coupler.outer_proxy)(cA)(xs, b),
+    # ONE coupled function per coupler, called on a SEQUENCE of (x, b) inputs (a solver evaluates the same coupled cost /
+    # constraint at every candidate): the call at position `pos` is the one sent to the model, every call is monitored
+    objs = {
+        "inner": coupler.inner(cA, **A)(fB),
+        "outer": coupler.outer(cA, **A)(gB),
+        "innerp": coupler.inner_proxy(cA, **Ab)(fB),
+        "outerp": coupler.outer_proxy(cA, **Ab)(gB),
+        "add": coupler.additive(pA, **A)(fB),
+        "addp": coupler.additive_proxy(pA, **Ab)(fB),
+        "wi": C.with_constraint(coupler.inner, **A)(cA),
+        "wo": C.with_constraint(coupler.outer, **A)(cA),
+        "wip": C.with_constraint(coupler.inner_proxy)(cA),
+        "wop": C.with_constraint(coupler.outer_proxy)(cA),
     }
+    nob = ("wi", "wo")
+
+    def want_of(x, b):
+        return {"inner": fB(cA(x, a), b), "outer": cA(gB(x, b), a), "innerp": fB(cA(x, b), a),
+                "outerp": cA(gB(x, a), b), "add": fB(x, b) + pA(x, a), "addp": fB(x, a) + pA(x, b),
+                "wi": cA(x, a), "wo": cA(x, a), "wip": cA(x, b), "wop": cA(x, b)}
+    nseq = rng.choice([1, 2, 3, 4])
+    pos = rng.randrange(nseq)
+    seq = []
+    for k_ in range(nseq):
+        if k_ == pos:
+            seq.append((x, b))
+        elif seq and rng.random() < 0.3:
+            seq.append(rng.choice(seq))
+        else:
+            seq.append((c17.gen_point(rng, dim), rng.choice([1.0, 2.0, -1.0, dyadic(rng, -3, 3, 4), gfloat(rng, 3.0)])))
+    xs = list(x)
     got = {}
-    for k_, fn_ in calls_.items():
+    seqbad = []
+    for k_, (xk, bk) in enumerate(seq):
         try:
-            got[k_] = fn_()
+            wk = want_of(xk, bk)
         except ZeroDivisionError:
-            return None
-        except Exception as exc:       # noqa - the coupler mis-routed its argument bundles
-            got[k_] = exc
+            if k_ == pos:
+                return None
+            continue
+        for name, fn_ in objs.items():
+            arg = xs if k_ == pos else list(xk)
+            try:
+                v = fn_(arg) if name in nob else fn_(arg, bk)
+            except ZeroDivisionError:
+                return None
+            except Exception as exc:       # noqa - the coupler mis-routed its argument bundles
+                v = exc
+            if k_ == pos:
+                got[name] = v
+            elif isinstance(v, Exception):
+                seqbad.append((name, k_, xk, bk, repr(v), wk[name]))
+            elif isinstance(v, float):
+                if not same_float(v, wk[name]):
+                    seqbad.append((name, k_, xk, bk, v, wk[name]))
+            elif not same_vec([float(t) for t in v], wk[name]):
+                seqbad.append((name, k_, xk, bk, [float(t) for t in v], wk[name]))
+            if k_ != pos and [float(t) for t in arg] != [float(t) for t in xk]:
+                seqbad.append(("argument", k_, xk, bk, [float(t) for t in arg], xk))
     line = "C17 cpl (x %s) (c %s) (f %s) (p %s) (a %s) (b %s)" % (fl(x), dsl.con_sexp(c), dsl.expr_sexp(e), dsl.expr_sexp(e2), f2b(a), f2b(b))
-    return {"stream": "cpl", "x": x, "xs": xs, "got": got, "line": line, "kw": kw,
-            "want": {"inner": fB(cA(x, a), b), "outer": cA(gB(x, b), a), "innerp": fB(cA(x, b), a),
-                     "outerp": cA(gB(x, a), b), "add": fB(x, b) + pA(x, a), "addp": fB(x, a) + pA(x, b),
-                     "wi": cA(x, a), "wo": cA(x, a), "wip": cA(x, b), "wop": cA(x, b)}}
+    return {"stream": "cpl", "x": x, "xs": xs, "got": got, "line": line, "kw": kw, "pos": pos, "nseq": nseq, "seqbad": seqbad,
+            "want": want_of(x, b)}
 
 
 def cpl_check(cs, rep, findings, hist):
     r = parse_reply(rep)
-    case = {"stream": "cpl", "x": cs["x"], "request": cs["line"], "model": rep, "impl": {k: (v if isinstance(v, float) else (repr(v) if isinstance(v, Exception) else list(v))) for k, v in cs["got"].items()}}
+    case = {"stream": "cpl", "x": cs["x"], "request": cs["line"], "model": rep, "position_in_sequence": cs["pos"], "sequence_length": cs["nseq"],
+            "impl": {k: (v if isinstance(v, float) else (repr(v) if isinstance(v, Exception) else list(v))) for k, v in cs["got"].items()}}
+    for name, k_, xk, bk, v, w in cs["seqbad"]:
+        if name == "argument":
+            findings.append(Finding("monitor", "coupler/argument-modified", "call #%d of a reused coupled function modified its argument %r -> %r" % (k_, xk, v), dict(case, x=xk, b=bk)))
+        else:
+            findings.append(Finding("monitor", "coupler/%s-reused-args" % name, "call #%d of ONE coupled function (%s, with arguments) at x=%r b=%r gives %r, "
+                                    "the documented composition gives %r" % (k_, name, xk, bk, v, w), dict(case, x=xk, b=bk)))
+    hist["cpl-seq:%d@%d" % (cs["nseq"], cs["pos"])] = hist.get("cpl-seq:%d@%d" % (cs["nseq"], cs["pos"]), 0) + 1
     if r[0] != "ok":
         findings.append(Finding("correspondence", "cpl/model-%s" % r[0], "model replied %r" % (rep,), case))
         return False
